@@ -66,7 +66,8 @@ REQUIRED_HITS = ['bound-observed', 'results-attributed', 'quiescence-judged', 'd
 SHARDS = {'quick': 12, 'thorough': 16}
 BUDGET = {'quick': 50, 'thorough': 700}
 
-SMTP_KINDS = ['refuse', 'close', 'idle421', 'txn', 'slow', 'gates']
+SMTP_KINDS = ['refuse', 'close', 'idle421', 'txn', 'slow', 'gates']     # + 'late' (needs a small command_timeout)
+LATE_CMD_TIMEOUT = 0.06
 HTTP_KINDS = ['refuse', 'close', 'txn', 'idleclose', 'timeout', 'slow', 'gates']
 
 
@@ -80,7 +81,7 @@ def gen_cases(tier, seed, shard, nshards):
         ncallers = rnd.choice([1, 2, 3, 3, 4, 4, 5, 6, 7, 8, 10, 12])
         kinds = HTTP_KINDS if mode == 'http' else SMTP_KINDS
         mix = set(k for k in kinds if rnd.random() < 0.5)
-        focus = rnd.choice(['any', 'any', 'requeue', 'reset', 'exit-race'])
+        focus = rnd.choice(['any', 'any', 'requeue', 'reset', 'exit-race', 'late'])
         if focus == 'requeue':        # server-initiated timeout on a reused connection with a backlog
             idle, pool_size, ncallers = 0.03, rnd.choice([1, 2, None, None]), rnd.randint(4, 12)
             mix = (mix - {'gates'} if rnd.random() < 0.5 else mix) | {'idleclose' if mode == 'http' else 'idle421'}
@@ -91,10 +92,19 @@ def gen_cases(tier, seed, shard, nshards):
             pool_size = rnd.choice([1, 1, 2, 3])
             ncallers = max(ncallers, pool_size + 1)
             mix = mix | {'gates'}
+        elif focus == 'late':         # replies later than command_timeout (RSET after a failed transaction,
+            # other stages) on reused connections while followers are already queued behind a full pool
+            if mode == 'http':
+                mode, mix = rnd.choice(['smtp', 'lmtp']), set(k for k in SMTP_KINDS if rnd.random() < 0.3)
+            idle, pool_size, ncallers = 0.03, rnd.choice([1, 1, 2]), rnd.randint(4, 9)
+            mix = (mix - {'gates', 'refuse'}) | {'txn', 'late'}
         mix = sorted(mix)
         arrival = 'trickle' if (pool_size is None and idle and rnd.random() < 0.8) or rnd.random() < 0.15 else 'bursty'
         case = {'arrival': arrival, 'mode': mode, 'pool_size': pool_size, 'idle': idle, 'ncallers': ncallers, 'mix': mix,
                 'pipelining': rnd.random() < 0.7, 'seed': seed * 1000003 + idx}
+        if 'late' in mix:
+            case['cmd_timeout'] = LATE_CMD_TIMEOUT
+            case['arrival'] = 'bursty'
         if mode == 'http':
             case['http_timeout'] = 0.03 if 'timeout' in mix else None
         if idx % nshards == shard:
